@@ -4,8 +4,8 @@ import (
 	"encoding/asn1"
 	"fmt"
 
-	math "github.com/IBM/mathlib"
 	"github.com/IBM/TSS/mpc/bls"
+	math "github.com/IBM/mathlib"
 
 	"verif/internal/out"
 	"verif/internal/prng"
